@@ -268,6 +268,7 @@ class SamplerCore:
         d["random_state"] = self.config.random_state
         d["n_total"] = getattr(self, "n_total", None)
         d["logz_err"] = getattr(self, "logz_err", None)
+        d["rng_state"] = np.random.get_state()
 
         try:
             # Remove pool-related attributes that can't be pickled
@@ -326,8 +327,11 @@ class SamplerCore:
         if "logz_err" in d:
             self.logz_err = d["logz_err"]
 
-        # Set random seed
-        if "random_state" in d and d["random_state"] is not None:
+        # Continue the random stream from where it was when the checkpoint was written
+        # (older files without it fall back to re-seeding with random_state)
+        if d.get("rng_state") is not None:
+            np.random.set_state(d["rng_state"])
+        elif "random_state" in d and d["random_state"] is not None:
             np.random.seed(d["random_state"])
         _verif.emit("load_end", core=self, path=path, loaded=d)
 
